@@ -409,6 +409,23 @@ Proof.
 Qed.
 Print Assumptions C19_parse_error_inside.
 
+(* totality on bytes (Proofs/ParseCompose.v, wt-parser): for EVERY byte string the scan returns items and the model of
+   parse.SoyFile on them returns a tree or a positioned error -- never the slice panic of lineNumber, never out of fuel *)
+From Soy Require Import Proofs.ParserProofs Proofs.LexParseBridge Proofs.ParseCompose.
+Open Scope N_scope.
+Theorem C19_parse_never_crashes :
+  forall ul ud, ul (-1)%Z = false -> ud (-1)%Z = false ->
+  forall lexq unq, lexq_wf lexq -> forall s,
+    exists ts, lex_items ul ud (lex_budget s) false s = Ok ts /\
+      (floats_ok ts ->
+       match po_result (soy_file (N.of_nat (length s)) lexq unq ts) with
+       | POk _ _ => True
+       | PErr t c _ => (is_prefix e_quoted c = false -> t_pos t <= N.of_nat (length s)) /\ 1 <= line_at s (t_pos t) <= lines s
+       | PCrash _ | PFuel => False
+       end).
+Proof. exact parse_error_position_composed. Qed.
+Print Assumptions C19_parse_never_crashes.
+
 Theorem C19_line_at_monotone : forall src p q, p <= q -> line_at src p <= line_at src q.
 Proof. exact line_at_monotone. Qed.
 Print Assumptions C19_line_at_monotone.
